@@ -29,8 +29,32 @@ def schedules(c):
     return scheds
 
 
+def identities(c):
+    """The identity half of the property: merge reports and chains of identity pulls (Ident.tla, shared with C09)."""
+    import json
+    import os
+    from . import c09
+    c.tlc_model("MC_Ident", "MC_Ident.cfg", timeout=1200, label="identities: 2 replicas, 2 identities, <= 5 versions")
+    scheds = c09.catalogue() + c09.simulate(c, 20 if c.tier == "quick" else 600)
+    sf = os.path.join(c.scratch, "ident-sched.ndjson")
+    tf = os.path.join(c.scratch, "ident-trace.ndjson")
+    with open(sf, "w") as f:
+        for s in scheds:
+            f.write(json.dumps(s) + "\n")
+    c.vh(["ident", sf, tf], timeout=3000)
+    sessions = c09.split_sessions(tf)
+    n_ok, failures = c09.validate_sessions(c, sessions, "ident")
+    c.cov["identity_traces_validated"] = n_ok
+    for sess, idx, reason, ev in failures:
+        key = "ident-merge:%s:%s:%s" % (ev["ev"], ev.get("status", ""), (ev.get("err") or "chains-or-report-differ")[:40])
+        c.report(key, "identity pull: %s; schedule %s event #%d: %s" % (reason, scheds[sess]["name"], idx, json.dumps({k: ev[k] for k in ("ev", "r", "i", "status", "chain", "trk", "err")})),
+                 {"ident_schedule": scheds[sess], "event": ev})
+
+
 def run(c):
+    identities(c)
     c01.run(c, inv=INV, bind=(False, True, False), sched_fn=schedules, mut=mutate, cls=classify)
+    c.cov["traces_validated_against_impl"] += c.cov.get("identity_traces_validated", 0)
 
 
 replay = c01.replay
